@@ -33,6 +33,9 @@ CHECKS = {
  "C11": ("progsim", "runtime monitoring: returned contexts compared with delivered records; remote child created from each context",
   "from_span/current_local_parent are called at random program points on every span kind; the value is compared after delivery with the record of the span it names; a root is created from it (directly or via traceparent text) and must be delivered in that trace under that span.",
   "contexts of never-delivered spans are only checked for trace id / flag / mutual consistency", "DESIGN.md §5 C11"),
+ "C12": ("codec", "runtime monitoring: differential oracle (independent char-level reference classifier) over generated inputs",
+  "decode(encode(c)) == c and the 55-character form for boundary and random contexts; None for every input the statement requires None for (field count, version, empty / non-hex / overflowing fields), values equal to the reference for well-formed text, no panic on any input; Display/FromStr/serde of both id types round-trip as fixed-width lowercase hex.",
+  "2^193 contexts and all strings are sampled by class, boundary and mutation, not enumerated; a leading '+' in a field is recorded as unspecified", "DESIGN.md §5 C12"),
  "C13": ("progsim", "runtime monitoring: scripted inner futures driven poll by poll; all record oracles + per-poll context probes",
   "in_span / enter_on_poll adapters around scripted futures whose polls run random operations: probes inside and around every poll, delivery position (not before completion, in the first cycle after it), durations, completeness of what the final poll recorded (also when the span is the root, cancelable) with cycles placed at every queue operation of the poll; templates enumerate them.",
   "executor = explicit polls with a no-op waker on arbitrary logical threads", "DESIGN.md §5 C13"),
@@ -86,6 +89,8 @@ def main():
             "add_only": True,
         },
         "engines": [
+            {"name": "codec", "path": "harness/hx/src/bin/codec.rs", "serves_properties": ["C12"],
+             "kind_free_text": "pure-function monitoring of the text codecs against an independent reference"},
             {"name": "progsim", "path": "harness/hx/src/bin/progsim.rs", "serves_properties": sorted(p for p in claimed if "progsim" in CHECKS[p][0]),
              "kind_free_text": "random and template span-API programs on real threads under a baton scheduler, collector stepped through hook points, shadow-model oracles"},
         ],
